@@ -19,7 +19,7 @@ def check(prog, rep):
     rep.trusted_base = ["SQL semantics of the modelled subset", "peewee builder translation", "C08 (merge rule) for the stream-level argument"]
     rep.not_decided = ["whole-stream equality with heartbeat_reduce (inductive argument over streams, given informally in DESIGN.md)"]
     last_rule(prog, rep, stream_assumption=True)
-    order_rule(prog, rep)
+    order_rule(prog, rep, windowless=True)  # the ingestion loop reads without a window
     scope_sqlite(prog, rep, methods=METHODS)
     scope_peewee(prog, rep, methods=METHODS)
     scope_memory(prog, rep, methods=METHODS)
@@ -30,3 +30,20 @@ def check(prog, rep):
         cs = [c for c in prog.all_calls(fi) if isinstance(c.func, ast.Attribute) and c.func.attr == callee and norm(c.func.value) == "self.ds.storage_strategy"]
         ok = len(cs) == 1 and len(cs[0].args) > idx and is_param_ref(cs[0].args[idx], fi, p)
         rep.check(ok, "PASS", fi.short, f"{callee}(bucket, {p})", "caller's event forwarded", "the event handed to the backend is not the caller's", fi.loc())
+
+
+SQ = "aw_datastore/storages/sqlite.py"
+PW = "aw_datastore/storages/peewee.py"
+ME = "aw_datastore/storages/memory.py"
+DS = "aw_datastore/datastore.py"
+VARIANTS = [
+    ("B sqlite newest keyed on endtime (original defect)", SQ, "ORDER BY starttime DESC, id DESC LIMIT ?", "ORDER BY endtime DESC LIMIT ?", ["LAST", "LAST-KEY", "ORDER"]),
+    ("B sqlite replace_last keyed on endtime", SQ, "                        ORDER BY starttime DESC, id DESC LIMIT 1)\"\"\"", "                        ORDER BY endtime DESC, id DESC LIMIT 1)\"\"\"", ["LAST", "LAST-KEY"]),
+    ("B sqlite replace_last maps max(starttime) back without scope", SQ, "                        SELECT id FROM events\n                        WHERE bucketrow = (SELECT rowid FROM buckets WHERE id = ?)\n                        ORDER BY starttime DESC, id DESC LIMIT 1)\"\"\"", "                        SELECT id FROM events WHERE starttime =\n                            (SELECT max(starttime) FROM events WHERE bucketrow =\n                                (SELECT rowid FROM buckets WHERE id = ?)))\"\"\"", ["LAST", "SCOPE"]),
+    ("B memory replace_last keyed on end instant via max", ME, "last = sorted(self.db[bucket_id], key=lambda e: e.timestamp)[-1]", "last = max(self.db[bucket_id], key=lambda e: e.timestamp + e.duration)", ["LAST", "LAST-KEY"]),
+    ("B peewee newest by id", PW, "            .where(EventModel.bucket == self.bucket_keys[bucket_id])\n            .order_by(EventModel.timestamp.desc())\n            .get()", "            .where(EventModel.bucket == self.bucket_keys[bucket_id])\n            .order_by(EventModel.id.desc())\n            .get()", ["LAST", "LAST-KEY"]),
+    ("B replace_last rewrites bucketrow", SQ, "                   SET starttime = ?, endtime = ?, datastr = ?\n                   WHERE id = (", "                   SET starttime = ?, endtime = ?, datastr = ?, bucketrow = bucketrow\n                   WHERE id = (", ["LAST-SET", "SCOPE"]),
+    ("B Bucket.replace_last forwards a copy with rounded duration", DS, "        return self.ds.storage_strategy.replace_last(self.bucket_id, event)", "        return self.ds.storage_strategy.replace_last(self.bucket_id, Event(**event))", "PASS"),
+    ("OK for this property: Bucket.get ignores the limit (the newest event is still first; C03 reports it)", DS, "            self.bucket_id, limit, starttime, endtime\n        )", "            self.bucket_id, -1, starttime, endtime\n        )", "ok"),
+    ("OK peewee order spelled with unary minus", PW, "            .where(EventModel.bucket == self.bucket_keys[bucket_id])\n            .order_by(EventModel.timestamp.desc())\n            .get()", "            .where(EventModel.bucket == self.bucket_keys[bucket_id])\n            .order_by(-EventModel.timestamp)\n            .get()", "ok"),
+]
